@@ -69,6 +69,10 @@ var Workloads = []Workload{
 	{"handler-sends-after-client-close", func() []*prog.Script {
 		return []*prog.Script{{Tag: 1, Client: []prog.Act{A('s', 10), A('c', 0)}, Handler: []prog.Act{A('r', 0), A('s', 30), A('s', 1500), A('s', 30)}}}
 	}, 1, -1},
+	{"undecodable-message", func() []*prog.Script {
+		// one message in each direction that the receiver's decoder rejects; both sides carry on afterwards
+		return []*prog.Script{{Tag: 1, Client: []prog.Act{A('s', 10), A('r', 0), A('u', 12), A('r', 0), A('h', 0), A('R', 0)}, Handler: []prog.Act{A('r', 0), A('u', 15), A('r', 0), A('s', 20), A('R', 0)}}}
+	}, 0, -1},
 	{"rendezvous-unary-big", func() []*prog.Script {
 		return []*prog.Script{{Tag: 1, Unary: true, ReqSize: 6000, Handler: []prog.Act{A('r', 0), A('s', 6000)}}}
 	}, 0, 0},
